@@ -1,6 +1,7 @@
 import DaeVerif.C09.FwdModel
 import DaeVerif.C09.UdpModel
 import DaeVerif.C09.CtlModel
+import DaeVerif.C09.PipeModel
 /-!
 # C09 — DNS concurrency: executable models (core-only)
 
